@@ -90,3 +90,4 @@ Definition fb_try_from (b : N) : res fbtypeid :=
 (* ---- constants ---------------------------------------------------------- *)
 Definition MBI_MAGIC : N := 920085129.     (* multiboot2::MAGIC  = 0x36d76289 *)
 Definition HDR_MAGIC : N := 3897708758.    (* multiboot2_header::MAGIC = 0xe85250d6 *)
+Definition HDR_TAG_TYPES : N := 11.        (* multiboot2_header::HeaderTagType::count() *)
